@@ -11,7 +11,7 @@ from ptstat import AnalysisError
 from ptstat.symval import SymObj, Phi, SymRaise, Vec
 from ptstat.symlib import interp_f, vec_f
 from spec import neutron as spec
-from .common import eq, fsite, folder, _s
+from .common import eq, fsite, folder, _s, constants_lint
 from .nworld import neutron_world
 
 EXPLANATION = (
@@ -200,6 +200,7 @@ def run(ctx):
               f"positive imaginary part at {badim[:3]}", "periodictable/nsf_tables.py",
               sample={"tables": len(ed), "rows": sum(len(v) for v in ed.values())})
     ctx.unit("table_rows", len(rows) + sum(len(v) for v in ed.values()))
+    constants_lint(ctx, "R8", ["avogadro_number"], "number density N = rho N_A / M in the documented SLD equations")
     ctx.unit("functions_inlined", len(set(I.calls)))
     ctx.extra["exhaustive"] = False
     ctx.assume("numpy.interp clamps at the ends when left/right are not given and returns fp at a node")
